@@ -381,8 +381,10 @@ fn c01_arith_expressions_inner(progress: &Arc<Mutex<String>>) -> (bool, String) 
     let (facts, operands) = arith_facts();
     let mut tried = 0u64;
     // 0..=2 operators over all operands (with and without blanks); 3 operators over the first five operands
-    for nops in 0..=3usize {
-        let pool = if nops == 3 { &operands[..5] } else { &operands[..] };
+    // (thorough tier: 0..=3 operators over all operands, 4 operators over the first five)
+    let max_ops = crate::bound(3, 4);
+    for nops in 0..=max_ops {
+        let pool = if nops == max_ops { &operands[..5] } else { &operands[..] };
         let n = pool.len();
         let mut idx = vec![0usize; nops + 1];
         loop {
@@ -392,7 +394,7 @@ fn c01_arith_expressions_inner(progress: &Arc<Mutex<String>>) -> (bool, String) 
                 let vals: Vec<Num> = idx.iter().map(|k| pool[*k].1).collect();
                 let ops: Vec<char> = opi.iter().map(|k| AOPS[*k]).collect();
                 for spaces in [true, false] {
-                    if !spaces && nops == 3 {
+                    if !spaces && nops == max_ops {
                         continue;
                     }
                     let text = render(&names, &ops, spaces);
@@ -430,10 +432,10 @@ fn c01_arith_expressions_inner(progress: &Arc<Mutex<String>>) -> (bool, String) 
             }
         }
     }
-    (false, format!("{} expressions with <= 3 operators from + - * / % over fields a=7 b=2 c=-3 z=0 x=1.5 N.p=4 N.q=2.5 and literals 3, 2.5, 10", tried))
+    (false, format!("{} expressions with <= {} operators from + - * / % over fields a=7 b=2 c=-3 z=0 x=1.5 N.p=4 N.q=2.5 and literals 3, 2.5, 10", tried, max_ops))
 }
 fn c01_arith_expressions() -> (bool, String) {
-    guarded(60, c01_arith_expressions_inner)
+    guarded(crate::bound(60, 900) as u64, c01_arith_expressions_inner)
 }
 
 // ------------------------------------------------------------------------------------------------------------------------
@@ -644,7 +646,7 @@ fn c01_rules_field_vs_literal_inner(progress: &Arc<Mutex<String>>) -> (bool, Str
     }
 }
 fn c01_rules_field_vs_literal() -> (bool, String) {
-    guarded(60, c01_rules_field_vs_literal_inner)
+    guarded(crate::bound(60, 900) as u64, c01_rules_field_vs_literal_inner)
 }
 
 /// (c2) `field op otherField`: the right-hand side names a field (as the parser stores it: an Expression; and the legacy form,
@@ -723,7 +725,7 @@ fn c01_rules_field_vs_field_inner(progress: &Arc<Mutex<String>>) -> (bool, Strin
     }
 }
 fn c01_rules_field_vs_field() -> (bool, String) {
-    guarded(90, c01_rules_field_vs_field_inner)
+    guarded(crate::bound(90, 900) as u64, c01_rules_field_vs_field_inner)
 }
 
 // ------------------------------------------------------------------------------------------------------------------------
@@ -819,7 +821,8 @@ fn c01_rules_compound_inner(progress: &Arc<Mutex<String>>) -> (bool, String) {
     d2.extend(grow(&d1, &d1));
     let mut trees = d2.clone();
     trees.extend(grow(&d2, &d0)); // depth 3: one side of depth <= 2, the other a leaf
-    trees.extend(grow(&d2.iter().skip(d1.len()).step_by(12).cloned().collect::<Vec<_>>(), &d1)); // ... or of depth <= 1 (a sample)
+    let step = crate::bound(12, 1); // every 12th depth-2 tree (thorough tier: every one)
+    trees.extend(grow(&d2.iter().skip(d1.len()).step_by(step).cloned().collect::<Vec<_>>(), &d1)); // ... or of depth <= 1 (a sample)
     // the same shapes over the second pair of leaves, to depth 2
     let e0 = vec![T::Leaf(2), T::Leaf(3)];
     let mut e1 = e0.clone();
@@ -835,11 +838,11 @@ fn c01_rules_compound_inner(progress: &Arc<Mutex<String>>) -> (bool, String) {
     let n = cases.len();
     match run_cases(&store, cases, progress) {
         Some(bad) => (true, bad),
-        None => (false, format!("{} condition trees over && || ! (all to depth 2; depth 3 with one side a leaf, and a sample with one side of depth 1; a depth-6 chain) built with the constructors", n)),
+        None => (false, format!("{} condition trees over && || ! (all to depth 2; depth 3 with one side a leaf, and a sample (1 in {} of the depth-2 trees) with one side of depth 1; a depth-6 chain) built with the constructors", n, step)),
     }
 }
 fn c01_rules_compound() -> (bool, String) {
-    guarded(90, c01_rules_compound_inner)
+    guarded(crate::bound(90, 900) as u64, c01_rules_compound_inner)
 }
 
 /// run GRL rules `rule "r<i>" { when <cond> then o<i> = 1; }` and compare which actions ran with `expect`
@@ -883,7 +886,8 @@ fn c01_rules_compound_grl_inner(progress: &Arc<Mutex<String>>) -> (bool, String)
     let mut d2 = d1.clone();
     d2.extend(grow(&d1, &p0));
     let mut trees = d2.clone();
-    trees.extend(grow(&d2[d1.len()..].iter().step_by(5).cloned().collect::<Vec<_>>(), &p0)); // a fifth of the depth-2 trees, one level deeper
+    let step = crate::bound(5, 1); // a fifth of the depth-2 trees (thorough tier: all of them), one level deeper
+    trees.extend(grow(&d2[d1.len()..].iter().step_by(step).cloned().collect::<Vec<_>>(), &p0));
     let mut cases: Vec<(String, bool)> = vec![];
     for t in &trees {
         let want = truth(t, &leaf_truth);
@@ -896,11 +900,11 @@ fn c01_rules_compound_grl_inner(progress: &Arc<Mutex<String>>) -> (bool, String)
     let n = cases.len();
     match run_grl_cases(&store, &cases, progress) {
         Some(bad) => (true, bad),
-        None => (false, format!("{} GRL `when` texts over && || ! and parentheses (to depth 3), parsed by GRLParser and executed", n)),
+        None => (false, format!("{} GRL `when` texts over && || ! and parentheses (to depth 3: {} depth-2 trees one level deeper), parsed by GRLParser and executed", n, if step == 1 { "all".to_string() } else { format!("1 in {} of the", step) })),
     }
 }
 fn c01_rules_compound_grl() -> (bool, String) {
-    guarded(90, c01_rules_compound_grl_inner)
+    guarded(crate::bound(90, 900) as u64, c01_rules_compound_grl_inner)
 }
 
 // ------------------------------------------------------------------------------------------------------------------------
@@ -926,6 +930,7 @@ fn c01_rules_arith_condition_inner(progress: &Arc<Mutex<String>>) -> (bool, Stri
     let mut cases: Vec<Case> = vec![];
     let mut skipped = 0u64;
     let mut count = 0u64;
+    let grl_every = crate::bound(37, 2) as u64; // the GRL route for every 37th condition (thorough tier: every 2nd)
     for a in &first {
         for b in &rest {
             for c in [None, Some(&rest[0]), Some(&rest[4])] {
@@ -966,7 +971,7 @@ fn c01_rules_arith_condition_inner(progress: &Arc<Mutex<String>>) -> (bool, Stri
                                 count += 1;
                                 let text = format!("{} {} {}", left, cname, r.0);
                                 // the GRL route for a sample (every 37th), the parser's representation for all
-                                if count % 37 == 0 {
+                                if count % grl_every == 0 {
                                     grl.push((text.clone(), expect));
                                 }
                                 cases.push(Case { desc: text.clone(), cond: ConditionGroup::single(Condition::with_test(text, vec![])), expect });
@@ -997,10 +1002,10 @@ fn c01_rules_arith_condition_inner(progress: &Arc<Mutex<String>>) -> (bool, Stri
     if let Some(bad) = run_grl_cases(&store, &grl, progress) {
         return (true, bad);
     }
-    (false, format!("{} arithmetic conditions `f1 op f2 [op f3] cmp literal` as the parser represents them + {} of them as GRL text ({} skipped as not fixed by the statement)", n, g, skipped))
+    (false, format!("{} arithmetic conditions `f1 op f2 [op f3] cmp literal` as the parser represents them + {} of them (1 in {} + the statement's examples) as GRL text ({} skipped as not fixed by the statement)", n, g, grl_every, skipped))
 }
 fn c01_rules_arith_condition() -> (bool, String) {
-    guarded(90, c01_rules_arith_condition_inner)
+    guarded(crate::bound(90, 900) as u64, c01_rules_arith_condition_inner)
 }
 
 /// (c6) assignments: `target = expression` stores the reference value of the expression on the facts at that moment; a rule whose
@@ -1036,9 +1041,13 @@ fn c01_rules_assignment_inner(progress: &Arc<Mutex<String>>) -> (bool, String) {
         let text = render(names, ops, true);
         // rule 1 (salience 10): when <true or false condition> then target = expr; second = target + 1
         // rule 2 (salience 5): when A.x >= 0 || A.x < 0 then third = target * 2       (sees rule 1's assignment)
-        let target = targets[ei % targets.len()];
+        // quick tier: one target per expression (in rotation) and the false condition for every 5th expression;
+        // thorough tier: every target and both conditions for every expression
+        let one = [targets[ei % targets.len()]];
+        let tgts: &[&str] = if crate::thorough() { &targets } else { &one };
+        for &target in tgts {
         for cond_true in [true, false] {
-            if !cond_true && ei % 5 != 0 {
+            if !cond_true && ei % 5 != 0 && !crate::thorough() {
                 continue;
             }
             *progress.lock().unwrap() = format!("{} = {}", target, text);
@@ -1134,6 +1143,7 @@ fn c01_rules_assignment_inner(progress: &Arc<Mutex<String>>) -> (bool, String) {
                 return (true, format!("{}: third = {:?}, expected {}", describe(), got_third, want_third.unwrap()));
             }
         }
+        }
     }
     // non-numeric assignments: literal and copied values keep their value
     let kb = KnowledgeBase::new("c01set2");
@@ -1187,10 +1197,10 @@ fn c01_rules_assignment_inner(progress: &Arc<Mutex<String>>) -> (bool, String) {
             return (true, format!("{}; GRL `{}`: {} = {:?}, expected {}", STORE_DESC, grl, k, g, w));
         }
     }
-    (false, format!("{} two-rule sets with assignments `target = f1 [op f2 [op f3]]` (targets: new/existing nested field, flat key, flat dotted key, absent object) + copies of strings/arrays/booleans + a GRL example ({} skipped: failing right-hand side)", tried, skipped))
+    (false, format!("{} two-rule sets with assignments `target = f1 [op f2 [op f3]]` ({}; targets: new/existing nested field, flat key, flat dotted key, absent object) + copies of strings/arrays/booleans + a GRL example ({} skipped: failing right-hand side)", tried, if crate::thorough() { "every expression x every target x true/false condition" } else { "one target per expression, the false condition for every 5th" }, skipped))
 }
 fn c01_rules_assignment() -> (bool, String) {
-    guarded(90, c01_rules_assignment_inner)
+    guarded(crate::bound(90, 900) as u64, c01_rules_assignment_inner)
 }
 
 pub fn witnesses() -> Vec<crate::W> {
